@@ -65,7 +65,7 @@ impl Kind {
     }
 }
 
-const WRAPS: [&str; 11] = ["none", "macro", "macro-uninvoked", "if1", "if0", "interp", "loop", "loopdef", "macro-arg", "macro-named-a", "macro-arg-same-name"];
+const WRAPS: [&str; 13] = ["none", "macro", "macro-uninvoked", "if1", "if0", "interp", "loop", "loopdef", "macro-arg", "shadowed-first-segment", "expr-repeat", "macro-named-a", "macro-arg-same-name"];
 const FORMS: [&str; 5] = ["a", "super.a", "super.super.a", "s1.a", "s1.s2.a"];
 const LEVELS: [&str; 3] = ["root", "s1", "s2"];
 const IMPORTS: [&str; 6] = ["star", "named", "alias", "ns", "twice", "block"];
@@ -138,7 +138,7 @@ impl Spec {
 }
 
 pub fn catalogue(thorough: bool) -> Vec<Spec> {
-    let wraps: Vec<usize> = if thorough { (0..WRAPS.len()).collect() } else { vec![0, WRAPS.len() - 2, WRAPS.len() - 1] };
+    let wraps: Vec<usize> = if thorough { (0..WRAPS.len()).collect() } else { vec![0, WRAPS.len() - 4, WRAPS.len() - 3, WRAPS.len() - 2, WRAPS.len() - 1] };
     let kinds = [Kind::N, Kind::L, Kind::C];
     let mut out = vec![];
     for k0 in kinds {
@@ -369,6 +369,10 @@ impl Gen {
         let (l, pcol) = if text_mode {
             let l = self.line(f, format!("{}.text \"{{{}}}\" /* a */", i, path));
             (l, i.len() as u32 + 8)
+        } else if wrap == "expr-repeat" {
+            // the same path three times in one expression (the value is that of the path)
+            let l = self.line(f, format!("{}.word {} + {} - {} /* a */", i, path, path, path));
+            (l, i.len() as u32 + 6)
         } else {
             let l = self.line(f, format!("{}.word {} /* a */", i, path));
             (l, i.len() as u32 + 6)
@@ -376,6 +380,11 @@ impl Gen {
         self.line(f, format!("{}.byte $fd,${:02x}", i, 0xe0 + id));
         self.uses.push(UseInfo { id, text_mode, emitted: vec![] });
         self.path_occs(f, l, pcol, id, path, level, form, wrap);
+        if wrap == "expr-repeat" && !text_mode {
+            let step = path.len() as u32 + 3;
+            self.path_occs(f, l, pcol + step, id, path, level, form, wrap);
+            self.path_occs(f, l, pcol + 2 * step, id, path, level, form, wrap);
+        }
     }
 
     /// one occurrence per segment of a path written at (line, col)
@@ -448,6 +457,19 @@ impl Gen {
                 use_id: None,
                     });
                 }
+            }
+            "expr-repeat" => self.use_block(f, ind, 0, path, level, path, w, false),
+            "shadowed-first-segment" => {
+                // a plain label that is called like the first segment of a dotted path, nearer than the scope of
+                // that name: the whole path still means the outer one (the label has no members)
+                let first = path.split('.').next().unwrap_or("");
+                // (only where the use stands deeper than the scope the first segment names: in that scope itself the
+                // label would be a second symbol of the same name, not a nearer one)
+                if first != "super" && path.contains('.') && level != "root" {
+                    let l = self.line(f, format!("{}{}: nop", i, first));
+                    self.add_def(f, l, i.len() as u32, first, "shadow-label", None, None, w, level);
+                }
+                self.use_block(f, ind, 0, path, level, path, w, false);
             }
             "macro-named-a" => {
                 // the macro `a` is defined at the top of the file (see `macro_named_a`); here it is invoked,
@@ -2025,7 +2047,7 @@ pub fn run(ctx: &Ctx, replay: Option<&Value>) -> i32 {
         "bound",
         json!({
             "levels": 3, "definition_kinds": ["none", "label", "const"], "path_forms": FORMS,
-            "wrappers": if ctx.tier.is_thorough() { WRAPS.to_vec() } else { vec!["none", "macro-named-a", "macro-arg-same-name"] },
+            "wrappers": if ctx.tier.is_thorough() { WRAPS.to_vec() } else { vec!["none", "shadowed-first-segment", "expr-repeat", "macro-named-a", "macro-arg-same-name"] },
             "orders": if c15 && !ctx.tier.is_thorough() { json!(["definitions-first"]) } else { json!(["definitions-first (all wrappers)", "uses-first (unwrapped use only)"]) },
             "imports": IMPORTS,
             "positions": if c15 { json!(["start", "middle", "end"]) } else { json!(["first char", "last char"]) },
